@@ -14,7 +14,13 @@ behaviour x To=void x registration syntax) are picked in Init, so one TLC run co
   Adapters_race.cfg  the same with two competing resolvers (value / exception / drop against each other)
   thorough: Adapters_seq3.cfg (three operations per scenario), Adapters_race_full.cfg (all four allocators),
                      full edge cover everywhere, replayer built with ASan/UBSan
-  Adapters_pinned.cfg  property self-test: FixVoidSrc = FALSE must violate ConvertedValueOrException
+  Adapters_fine.cfg  Grain = "fine": registering thread x one resolver with the atomic operation and the plain
+                     code after it as separate steps (vsched yield_after); PublishedResumable
+  Adapters_pinned.cfg / _armlate.cfg / _argsbyref.cfg  property self-tests: FixVoidSrc = FALSE, ArmLate = {discard},
+                     ArgsByRef = TRUE must violate ConvertedValueOrException / PublishedResumable / ArgsAsPassed
+The sequential scenarios run from ordinary code (ctx "plain") and from inside a running coroutine (ctx "coro": the
+helper coroutine of callback_await is queued and starts at Yield); callback_await's awaitable argument is passed as
+a temporary, an lvalue and a moved named object (tracked: destruction / move poison it; ArgsAsPassed).
 
 The specification describes the repaired behaviour of the void-source converters (FixVoidSrc = TRUE): they
 deliver the source's exception / broken promise to the outer future, as the property demands."""
@@ -41,10 +47,11 @@ def proj_common(st):
     par, s = st["par"], st["s"]
     ad = par["ad"]
     alive = s["round"] > 0 if (ad in MEMBER or is_conv(ad)) else s["hlive"] == 1
-    if alive:
-        src = {"slot": s["slot"], "tag": s["tag"], "v": s["payload"]}
+    if alive and s["slot"] != "none":
+        src = {"slot": s["slot"], "armed": s["slot"] == "helper" and s["armed"], "tag": s["tag"], "v": s["payload"]}
     else:
-        src = {"slot": "gone", "tag": "none", "v": 0}
+        # the helper (and the future in it) is gone, or its awaitable is not built yet (helper only queued)
+        src = {"slot": "gone", "armed": False, "tag": "none", "v": 0}
     stor = {}
     if par["alloc"] == "reusable":
         stor = {"cap": s["blk"] == 1}
@@ -52,7 +59,7 @@ def proj_common(st):
         stor = {"cap": s["blk"] == 1, "busy": s["busy"]}
     elif par["alloc"] == "counting":
         stor = {"a": s["stA"], "d": s["stD"], "bad": 0}
-    out = {"round": s["round"], "src": src, "calls": s["calls"], "got": s["got"], "heap": s["heap"],
+    out = {"round": s["round"], "src": src, "args": s["badargs"], "calls": s["calls"], "got": s["got"], "heap": s["heap"],
            "news": s["news"], "cb": s["cb"], "st": stor}
     if is_conv(ad):
         out["prom"] = s["prom"]
@@ -77,10 +84,10 @@ def proj_conc(st):
     return out
 
 
-def header(mode):
+def header(mode, fine=False):
     def hdr(k, st0):
         par = st0["par"]
-        h = {"mode": mode, "ad": par["ad"], "alloc": par["alloc"], "cv": par["cv"], "reg": par["reg"],
+        h = {"mode": mode, "fine": fine, "ctx": par["ctx"], "argk": par["argk"], "ad": par["ad"], "alloc": par["alloc"], "cv": par["cv"], "reg": par["reg"],
              "tovoid": par["tovoid"], "k": k}
         if mode == "conc":
             h["rk"] = dict(st0["s"]["rk"])
@@ -178,8 +185,21 @@ def key_fn(sid, line, txt):
     return "diverge:Adapters:%s:%s" % (ad, re.sub(r"^DIVERGE \S+ ", "", line)[:60])
 
 
-SEQ_ACTIONS = ["Register", "Resolve", "UserResolve"]
+SEQ_ACTIONS = ["Register", "Resolve", "Yield", "UserResolve"]
 CONC_ACTIONS = ["Start", "Check", "Cas", "Fence", "Claim", "Swap", "UserResolve"]
+FINE_ACTIONS = ["FStart", "FCheck", "PostCheck", "FCas", "PostCas", "FFence", "PostFence", "FClaim", "PostClaim", "FSwap",
+                "PostSwap", "UserResolve"]
+
+
+def expect_violation(ctx, cfg, invariant, what):
+    """property self-test: a variant of the specification that describes a seeded defect must be rejected"""
+    sd = os.path.join(vlib.VERIF, "spec", "Adapters")
+    res = vlib.run_tlc(sd, "Adapters", os.path.join(sd, cfg), "C18_" + cfg[:-4], workers=2, coverage=False)
+    if res.violated_name != invariant:
+        raise MachineryError("property self-test: %s (%s) does not violate %s: %s"
+                             % (cfg, what, invariant, (res.violation or res.error or "")[-400:]))
+    ctx.extra.setdefault("unrepaired_variants_rejected", []).append(
+        {"variant": what, "violated": res.violated_name, "trace_len": len(res.trace), "states": res.distinct})
 
 
 def run(ctx):
@@ -200,21 +220,23 @@ def run(ctx):
         graph_replay(ctx, "Adapters", "Adapters", "Adapters_race.cfg" if ctx.quick else "Adapters_race_full.cfg", "race", rp,
                      proj_conc, header_fn=header("conc"),
                      must_take=CONC_ACTIONS, key_fn=key_fn, tlc_kw=kw)
-    # property self-test: the pinned behaviour of the void-source converters must be rejected
-    res = vlib.run_tlc(os.path.join(vlib.VERIF, "spec", "Adapters"), "Adapters",
-                       os.path.join(vlib.VERIF, "spec", "Adapters", "Adapters_pinned.cfg"), "C18_pinned", workers=2,
-                       coverage=False)
-    if res.violated_name != "ConvertedValueOrException":
-        raise MachineryError("property self-test: Adapters_pinned.cfg (FixVoidSrc = FALSE) does not violate "
-                             "ConvertedValueOrException: %s" % ((res.violation or res.error or "")[-400:]))
-    ctx.extra["unrepaired_variants_rejected"] = [{"variant": "FixVoidSrc=FALSE", "violated": res.violated_name,
-                                                  "trace_len": len(res.trace), "states": res.distinct}]
+    # finest grain (vsched yield_after): the atomic operation and the plain code after it are separate steps, so
+    # plain code on the wrong side of an atomic operation (a node published before it is armed) is exposed
+    with swapped_cover(cover_by_init(None if not ctx.quick else 12)):
+        graph_replay(ctx, "Adapters", "Adapters", "Adapters_fine.cfg" if ctx.quick else "Adapters_fine_full.cfg", "fine", rp,
+                     proj_conc, header_fn=header("conc", fine=True),
+                     must_take=FINE_ACTIONS, key_fn=key_fn, tlc_kw=kw, max_paths=None)
+    # property self-tests: specification variants that describe known / seeded defects must be rejected
+    expect_violation(ctx, "Adapters_pinned.cfg", "ConvertedValueOrException", "FixVoidSrc=FALSE")
+    expect_violation(ctx, "Adapters_armlate.cfg", "PublishedResumable", "ArmLate={discard}")
+    expect_violation(ctx, "Adapters_argsbyref.cfg", "ArgsAsPassed", "ArgsByRef=TRUE")
     ctx.assume("compare_exchange_weak does not fail spuriously (x86-64 lock cmpxchg); weak CAS is executed as strong "
                "under the controlled scheduler")
     ctx.assume("scheduling points of the concurrent replays are the atomic operations on the awaited future's slot and "
                "on its promise's owner word plus the subscribe fence; operations on objects used by one thread at a "
                "time (outer future and parked promise of a converter, storage busy flag, promise hand-over) run "
                "inside the step")
-    ctx.assume("adapters are invoked from a plain thread (no active coroutine queue); user callbacks and converters "
-               "do not throw out of the callback except the converters' modelled exception")
+    ctx.assume("adapters are invoked from ordinary code and (sequential timings) from inside a running coroutine whose "
+               "ready queue runs at explicit Yield steps; the concurrent timings are invoked from plain threads; user "
+               "callbacks and converters do not throw out of the callback except the converters' modelled exception")
     ctx.assume("sequentially consistent interleavings; memory-order effects of the future protocol are C03's subject")
